@@ -453,12 +453,12 @@ def run(ctx):
                        "does not say who is the server then)",
                        "option vectors are observed by wrapping arg_parser_init/get_port_map inside the real run() on an empty capture"]
     ctx.gen_tables = extract.all_tables()
-    import export_props_thms, file_corr     # whole-program form (Props/ExportProps) about TLX.Export.framesFrom, tied file to file
+    import export_props_quic_thms, export_props_thms, file_corr     # whole-program form (Props/ExportProps) about TLX.Export.framesFrom, tied file to file
     import translate                 # decision-logic functions re-translated from the source and proved equal to the model
     _tm, _tt = translate.wire(ctx, "C10")
-    ctx.prove(["TLX.Props.C10"] + export_props_thms.MODULES + _tm)
+    ctx.prove(["TLX.Props.C10"] + export_props_thms.MODULES + export_props_quic_thms.MODULES + _tm)
     ctx.require_theorems(_tt)
-    ctx.require_theorems(THEOREMS + export_props_thms.THEOREMS_C10)
+    ctx.require_theorems(THEOREMS + export_props_thms.THEOREMS_C10 + export_props_quic_thms.THEOREMS_C10)
     file_corr.correspond(ctx, ctx.n(12, 200))     # ties the whole-program model (ExportProps' subject) file to file
     explore(ctx)
     return ctx.finish(search=lambda c: explore(c, scale=3))
